@@ -232,23 +232,43 @@ func c19(r *Run) {
 		ro := rolesOf(w)
 		tokA := func(i ssa.Instruction) bool { return false }
 		_ = tokA
+		seenAdaptive := map[string]bool{}
 		for _, field := range []string{"maxSize", "bookSize"} {
 			for _, f := range w.Funcs {
-				for _, ins := range findIns(f, func(i ssa.Instruction) bool { return isStoreToField(i, "connection", field) }) {
+				for _, ins := range findIns(f, func(i ssa.Instruction) bool {
+					if isStoreToField(i, "connection", field) {
+						return true
+					}
+					_, isLoad := loadOfFieldIns(i, "connection", field)
+					return isLoad
+				}) {
 					name := w.FnName(f)
-					key := "C19.R2:adaptive-size:" + field + ":" + name
+					kind := "store"
+					if _, isLoad := loadOfFieldIns(ins, "connection", field); isLoad {
+						kind = "load"
+					}
+					key := "C19.R2:adaptive-size:" + field + ":" + name + ":" + kind
+					if seenAdaptive[key] {
+						continue
+					}
+					seenAdaptive[key] = true
 					switch name {
 					case "(*connection).init":
-						r.ob(key, "connection."+field+" is written only by the poller callbacks, by Release under the slot token, or before publication", f, ins, true, "pre-publication", false)
+						r.ob(key, "connection."+field+" is read and written only by the poller callbacks, by Release under the slot token, or before publication", f, ins, true, "pre-publication", false)
 					case "(*connection).inputAck", "(*connection).inputs":
-						r.ob(key, "connection."+field+" is written only by the poller callbacks, by Release under the slot token, or before publication", f, ins, true, "poller callback (slot token held by the dispatch function)", false)
+						r.ob(key, "connection."+field+" is read and written only by the poller callbacks, by Release under the slot token, or before publication", f, ins, true, "poller callback (slot token held by the dispatch function)", false)
 					default:
 						doOK := callResultAtom(ro.opDo, true)
-						r.guarded(key, "connection."+field+" is written only by the poller callbacks, by Release under the slot token, or before publication", f, ins, doOK, nil, "guarded by operator.do()==true")
+						r.guarded(key, "connection."+field+" is read and written only by the poller callbacks, by Release under the slot token, or before publication", f, ins, doOK, nil, "guarded by operator.do()==true")
 					}
 				}
 			}
 		}
+	}
+
+	// the flushing lock protects the flusher's use of the slot: it is stopped before the slot is freed
+	if w.Cfg.Name == "linux" {
+		r.borrow([]string{"C05.R8:stop-flushing-first"}, "C05.R8", "C19.R2", func() { c05(r) })
 	}
 
 	// ---- R3 race-build substitution --------------------------------------------------------------------
@@ -441,4 +461,12 @@ func c19Race(r *Run) {
 	}
 	_ = safe
 	r.Notes = append(r.Notes, fmt.Sprintf("race build: %d overrides, %d promoted call sites", len(declared), nSites))
+}
+
+func loadOfFieldIns(i ssa.Instruction, typ, field string) (ssa.Value, bool) {
+	u, ok := i.(*ssa.UnOp)
+	if !ok {
+		return nil, false
+	}
+	return loadOfField(u, typ, field)
 }
